@@ -2,6 +2,6 @@ From MV Require Import Lib.ExtractBase C17.Model gen.Params_C17.
 From Coq Require Import ExtrOcamlBasic.
 Extraction Language OCaml.
 Extraction "c17_model" force_types code_msg_max_len fs_get fs_put fs_content sname_eqb tname_eqb wlen fmt_clamp record_bytes
-  r_init r_write r_log r_restart r_step r_run r_step_log r_run_log gmtime localtime t_filename
+  r_init r_write r_log r_restart r_step r_run r_step_log r_run_log gmtime localtime zone_off fixed_zone t_filename
   t_init t_write t_log t_restart t_step t_run t_step_log t_run_log
   dir_eqb resolve g_dir g_set gs_fs rg_start rg_step rg_run tg_start tg_step tg_run.
